@@ -44,7 +44,8 @@ ASSUMPTIONS = [
     "os.open faults other than EEXIST are not injected (the property is "
     "silent on them)."]
 
-BASE = "/repo/src/psyclone/tests/test_files/"
+BASE = os.path.join(os.environ.get("VERIF_REPO", "/repo"),
+                    "src/psyclone/tests/test_files/")
 ALGS = {
     "lfric": [("1_single_invoke.f90", 1), ("4_multikernel_invokes.f90", 2),
               ("1.2_multi_invoke.f90", 2),
